@@ -107,7 +107,7 @@ func (t *vfClientTransport) RoundTrip(req *http.Request) (*http.Response, error)
 	if strings.HasPrefix(req.URL.Path, "/api/v0/login") && t.onLogin != nil {
 		t.onLogin()
 	}
-	if strings.HasPrefix(req.URL.Path, "/certgen/") && resp.StatusCode >= 400 && resp.StatusCode < 500 {
+	if strings.HasPrefix(req.URL.Path, "/certgen/") && resp.StatusCode >= 400 && resp.StatusCode < 600 {
 		b, _ := io.ReadAll(resp.Body)
 		resp.Body = io.NopCloser(bytes.NewReader(b))
 		t.refused = append(t.refused, vfRefused{Algo: vfOfferedAlgo(raw.Bytes()),
@@ -607,6 +607,9 @@ func genClientPlan(r *rand.Rand, tier string) *vfPlan {
 	backends := pick(r, [][]string{{"password"}, {"password", "U2F"}, {"TOTP"}, {"SymantecVIP"}, {"TOTP", "U2F"}})
 	p := &vfPlan{Cfg: vfCfg{TOTP: true, VIP: true, PwBackend: "counting", CertBackends: backends, WebUIBackends: []string{"U2F", "password"},
 		Ed25519CA: chance(r, 0.6), GroupsLDAP: chance(r, 0.3)}}
+	if chance(r, 0.25) && !containsStr(backends, "TOTP") {
+		p.Cfg.CAKey = "ecdsa" // a deployment whose primary CA key is ECDSA (local TOTP needs an RSA key to keep its secrets: not combined)
+	}
 	add := func(s vfStep) { p.Steps = append(p.Steps, s) }
 	user := pick(r, []string{"alice", "bob"})
 	if containsStr(backends, "TOTP") {
